@@ -1,10 +1,15 @@
 #!/bin/bash
-# usage: mutant.sh <patch.diff> <property> [tier]  -- applies a patch to /repo, runs the check, restores /repo
+# usage: mutant.sh <patch.diff> <property> [tier]
+# Evaluates a seeded change: a scratch worktree of /repo (outside /repo and /verif) gets the patch, the
+# check of <property> is rebuilt against that worktree (KB_REPO) and run; evidence and violation traces
+# of this run go to the scratch directory, never to /verif/evidence. /repo itself is not touched, so
+# several evaluations can run side by side. The worktree is removed afterwards.
+# (Equivalent by hand: git -C /repo apply <patch>; bin/check <property>; git -C /repo checkout -- .)
 set -u
-P=$1; PROP=$2; TIER=${3:-quick}
-cd /repo || exit 2
-if ! git diff --quiet; then echo "/repo has uncommitted changes"; exit 2; fi
-git apply "$P" || { echo "patch does not apply"; exit 2; }
-trap 'git -C /repo checkout -- . ; git -C /repo clean -fdq pkg' EXIT
-/verif/bin/check "$PROP" --tier "$TIER"
-echo "check exit code: $?"
+P=$(realpath "$1"); PROP=$2; TIER=${3:-quick}
+W=$(mktemp -d /tmp/kbmut.XXXXXX)
+git -C /repo worktree add --detach "$W/repo" HEAD -q || exit 2
+trap 'git -C /repo worktree remove --force "$W/repo" 2>/dev/null; rm -rf "$W"' EXIT
+git -C "$W/repo" apply "$P" || { echo "patch does not apply"; exit 2; }
+KB_REPO="$W/repo" KB_SCRATCH="$W/scratch" /verif/bin/check "$PROP" --tier "$TIER" 2>&1 | grep -E "VIOLATION|KNOWN-FINDING|UNDECIDED|rejects|\[check\]" | sed -e "s#$W#<scratch>#g"
+echo "check exit code: ${PIPESTATUS[0]}"
